@@ -109,6 +109,7 @@ def check_group(job):
     """job = (dataset obj (no seq), list of sequences, fmt[, record]). Returns dict(n, traces, divs, recorded)."""
     import os
     record = len(job) > 3 and job[3]
+    perturb = len(job) > 4 and job[4]      # calls outside the model made before every modelled request (they must not matter)
     obj, seqs, fmt = job[0], job[1], job[2]
     out = {"n": 0, "traces": 0, "divs": [], "recorded": []}
     tracefile = None
@@ -131,7 +132,7 @@ def check_group(job):
         div(exc_site(e) if isinstance(e, Exception) else "load:error-exit", "loading: %r" % (e,), None, 0)
         return out
     snaps = [(i, name, np.array(getattr(i, name), float)) for i in inputs + ([clim] if clim else [])
-             for name in ("obs", "fcst") if getattr(i, name, None) is not None] if fmt == "text" else []
+             for name in ("obs", "fcst", "ensemble") if getattr(i, name, None) is not None] if fmt == "text" else []
     for seq in seqs:
         out["traces"] += 1
         results = []
@@ -143,6 +144,11 @@ def check_group(job):
             handed = []
             for q, step in enumerate(seq):
                 r = step["r"]
+                if perturb == "quantile-from-ensemble":
+                    import verif.field
+                    import verif.axis
+                    with quiet():       # a quantile level the files do not store: computed from the ensemble members
+                        data.get_scores(verif.field.Quantile(0.3), (q % 2), verif.axis.Leadtime(), 0)
                 with quiet():
                     res = dsreplay.do_request(data, r)
                 out["n"] += 1
